@@ -3,6 +3,7 @@ package stanza
 import (
 	"encoding/xml"
 	"errors"
+	"strconv"
 	"sync"
 )
 
@@ -205,8 +206,15 @@ func (SMFailed) Name() string {
 func (smf *SMFailed) UnmarshalXML(d *xml.Decoder, start xml.StartElement) error {
 	smf.XMLName = start.Name
 
-	// According to https://xmpp.org/rfcs/rfc3920.html#def we should have no attributes aside from the namespace
-	// which we don't use internally
+	// XEP-0198: <failed/> may carry the number of stanzas the server has handled ("h").
+	for _, attr := range start.Attr {
+		if attr.Name.Space == "" && attr.Name.Local == "h" {
+			if h, err := strconv.ParseUint(attr.Value, 10, 0); err == nil {
+				hh := uint(h)
+				smf.H = &hh
+			}
+		}
+	}
 
 	// decode inner elements
 	for {
